@@ -59,6 +59,14 @@ DATASETS["drift6"] = ([0.0, 1.0, 2.0, 3.0, 4.0, 5.0], [65536.0 + x / 1024.0 for 
 DATASETS["tiny5"] = ([1.0, 2.0, 3.0, 4.0, 6.0], [1e-8, 1.1e-8, 1.2e-8, 1.3e-8, 1.5e-8])
 # basis functions of very different size over the table (sum of squares ratio ~1e16)
 DATASETS["ramp21"] = ([float(i) for i in range(21)], [2e-8 * math.exp(i) + 0.5 * i + 3.0 for i in range(21)])
+# tables that are ALMOST symmetric / centred / orthogonal: an internal cross sum is tiny but not zero (a shortcut
+# for the exactly symmetric case must not be taken for them)
+for _i, _eps in enumerate((1e-9, 1e-7, 4e-5, 1e-3)):
+    DATASETS["nearsym%d" % _i] = ([-3.0, -1.0, 1.0, 3.0 + _eps, -2.0, 2.0],
+                                  [0.5 * x * x - 2.0 * x + 1.25 for x in (-3.0, -1.0, 1.0, 3.0 + _eps, -2.0, 2.0)])
+    DATASETS["nearcx%d" % _i] = ([-2.0, -1.0, 0.0, 1.0, 2.0 + _eps * 0.5], [0.001 * x + 50.0 for x in
+                                                                          (-2.0, -1.0, 0.0, 1.0, 2.0 + _eps * 0.5)])
+    DATASETS["nearcy%d" % _i] = ([10.0, 11.0, 12.0, 13.0, 14.0], [-2.0, -1.0, 0.0, 1.0, 2.0 + _eps])
 DATASETS["big50"] = ([i * 0.5 - 10 for i in range(50)],
                      noisy([i * 0.5 - 10 for i in range(50)], lambda x: 0.3 * x * x - x + 2, 0.5))
 DATASETS["big200"] = ([i * 0.1 for i in range(200)],
@@ -297,7 +305,8 @@ def check_relations(case):
             out.append(("noiseless", "noiseless %s data on %s raised %r" % (kind, case["set"], ex), None))
     # correlation coefficient (undefined, and refused by the library, when the ordinates have no spread to
     # speak of: those sets are here for the fits only)
-    if case["set"] in ("flat5", "drift6", "tiny5"):
+    if case["set"] in ("flat5", "drift6", "tiny5") or case["set"].startswith("nearcx"):
+        # (nearcx: ordinates 50 +- 0.002 - the textbook formula loses seven digits to cancellation there)
         return out
     try:
         r = cf.correlation_coeff()
